@@ -146,11 +146,12 @@ def focus_fixed_sampling_backprop(wavefunction, input_dx, prop_dist,
     if not isinstance(output_samples, Iterable):
         output_samples = (output_samples, output_samples)
 
-    dia = output_samples[0] * input_dx
-    Q = Q_for_sampling(input_diameter=dia,
-                       prop_dist=prop_dist,
-                       wavelength=wavelength,
-                       output_dx=output_dx)
+    # Q per axis, exactly as in focus_fixed_sampling; output_samples is the
+    # shape of the forward input (the pupil)
+    Q = tuple(Q_for_sampling(input_diameter=s*input_dx,
+                             prop_dist=prop_dist,
+                             wavelength=wavelength,
+                             output_dx=output_dx) for s in output_samples)
     if shift[0] != 0 or shift[1] != 0:
         shift = (shift[0]/output_dx, shift[1]/output_dx)
 
